@@ -16,7 +16,9 @@ META = {
         "must be in the same state with equal options / custom attributes and its own model and listener "
         "objects; afterwards original and clone are driven alternately with diverging suffixes of 3-10 "
         "events each: both histories must match the reference from the copy point, every callback must run "
-        "on its own instance's objects. distinct_nontrivial = distinct (copy point class, mechanism, options, "
+        "on its own instance's objects. "
+        "typed and falsy state values, value-object (equal / unhashable) listeners, listeners attached through add_observer, public and _private custom attributes. "
+        "distinct_nontrivial = distinct (copy point class, mechanism, options, "
         "engine, late listeners, bound model) observed."
     ),
     "assumptions": ["listener objects of the clone are located through the machine's listener registry (a private attribute) to check object identity; when unavailable only behaviour is compared"],
